@@ -44,14 +44,19 @@ class _:
               "_rejoin_wait_dc": "Optional[Ref_DelayedCall]", "_rejoin_d": "Optional[Ref_Deferred]",
               "_heartbeat_looper": ("Ref_LoopingCall", False), "_heartbeat_looper_d": "Optional[Ref_Deferred]",
               "_heartbeat_request_d": "Optional[Ref_Deferred]",
-              "session_timeout_ms": ("int", False), "protocol": ("Ref_GroupProtocol", False), "topics": ("Any", False),
+              "session_timeout_ms": ("int", False), "protocol": "Optional[Ref_GroupProtocol]", "topics": ("Any", False),
               "leader_id": "Any", "consumers": "Dict[str, List[Ref_PartitionConsumer]]"}
     invariant = {
         # C17: a scheduled rejoin is represented by a PENDING timer (a fired one kept here would block every later rejoin)
         "rejoin-wait-live": "self._rejoin_wait_dc is None or active(self._rejoin_wait_dc)",
         "backoffs": "self.retry_backoff_ms >= 0 and self.fatal_backoff_ms >= 0 and self.initial_backoff_ms >= 0",
+        # stop() (a stand-in here) drops the protocol object when it has finished; until a member is being stopped it is there
+        "protocol-while-not-stopping": "self._stopping or self.protocol is not None",
     }
-    rely = {"stopping-is-final": "implies(old(self._stopping), self._stopping)"}
+    rely = {"stopping-is-final": "implies(old(self._stopping), self._stopping)",
+            # the protocol object is dropped only by a stop() that found the member not stopping and leaves it stopping
+            "protocol-dropped-only-by-stop": "implies(old(self.protocol) is not None and (old(self._stopping) or not self._stopping), "
+                                             "self.protocol is not None)"}
     subclass_methods = ["ConsumerGroup"]
 
 
@@ -87,6 +92,9 @@ method("get_coordinator_broker", "(%s) -> Ref_Deferred" % SELF, modifies=ALL, in
 method("send_sync_group_request", "(%s, group_assignment: Any) -> Ref_Deferred" % SELF, modifies=ALL, inline_only=True)
 method("reset_heartbeat_timer", "(%s) -> None" % SELF, modifies=ALL, inline_at_calls=True)
 method("on_join_complete", "(%s, assignments: Any) -> Any" % SELF, modifies=ALL, inline_only=True)
+# send_heartbeat_request / send_sync_group_request build a request struct from self.generation_id, which is None outside a
+# generation: that they are only reached with a generation (set by the JoinGroup success callback that runs before the join
+# sequence resumes) is not expressible without modelling callback chains, so both stay havoc-only stand-ins (listed in evidence)
 method("send_heartbeat_request", "(%s) -> Ref_Deferred" % SELF, modifies=["Deferred.*"], inline_only=True, no_guarantee=True,
        establishes_invariant=False)
 
@@ -150,6 +158,7 @@ contract(G + "send_join_group_request.<_join_group_success>")(type('_', (), dict
                                             "and result == response"})))
 
 method("send_join_group_request", "(%s) -> Ref_Deferred" % SELF, props=["C11", "C16"],
+       requires=["not self._stopping"],
        checkpoints={"call:addCallbacks#1": {
            "join-allowed-the-stated-minimum[C11]": "n_events('GroupRequest') == 1 and event_arg('GroupRequest', 0, 4) == 35.0"}})
 
@@ -207,3 +216,10 @@ method("start", "(%s) -> Optional[Ref_Deferred]" % SELF, props=["C17"],
        raises={"RestartError[C17]": "iff:self._start_d is not None"},
        # C17: a started member is joining at once
        checkpoints={"call:join_and_sync#1": {"fresh-start[C17]": "self._start_d is not None and not called(self._start_d)"}})
+
+contract(G + "send_leave_group_request.<_leave_group_success>")(type('_', (), dict(
+    sig="(result: Any) -> None", props=["C16"], entry_point=True, closure_env={"self": "Ref_Coordinator"},
+    ensures={"membership-forgotten[C16]": "self.member_id == '' and self.generation_id is None"})))
+
+method("send_leave_group_request", "(%s) -> Ref_Deferred" % SELF, props=["C16"],
+       checkpoints={"call:addCallback#1": {"one-request[C16]": "n_events('GroupRequest') == 1"}})
